@@ -24,51 +24,136 @@ theorem range_map_split (s k a b : Nat) :
   intro i _
   simp [Nat.add_assoc]
 
-/-! ### C12 (keys) -/
+/-! ### C12 (keys)
+
+`VSpec.batch2` hands out keys in creation order, not document order. Statements that needed the
+predicate `NoBatch2` / `NoBatch2List` (they speak of the document order of keys and are FALSE otherwise,
+see the examples at the end of this section): `build_keys`, `buildList_keys` (first conjunct) and
+`C12_keys` (= `C12_keys_statement`). Proved for ALL views, `batch2` included: the counter arithmetic
+(`build_counter`, `buildList_counter`), the keys as a permutation of the interval (`build_keys_perm`,
+`buildList_keys_perm`), uniqueness (`C12_keys_nodup_from`, `C12_keys_nodup`, statements unchanged), the set
+of keys (`C12_keys_mem`) and their conjunction `C12_keys_all`. -/
+
+/-- first segment `la` from `k`, then `lb` from the counter `k1 = k + a` that `la` left -/
+theorem perm_range_seq (s k a b k1 : Nat) (la lb : List (Nat × Nat)) (hk : k1 = k + a)
+    (ha : la.Perm ((List.range a).map (fun i => (s, k + i))))
+    (hb : lb.Perm ((List.range b).map (fun i => (s, k1 + i)))) :
+    (la ++ lb).Perm ((List.range (a + b)).map (fun i => (s, k + i))) := by
+  subst hk
+  rw [range_map_split s k a b]
+  exact ha.append hb
+
+/-- `lb` takes its keys first (from `k`), `la` from the counter `k1 = k + b` that `lb` left; `la` comes first
+in the document -/
+theorem perm_range_swap (s k a b k1 : Nat) (la lb : List (Nat × Nat)) (hk : k1 = k + b)
+    (ha : la.Perm ((List.range a).map (fun i => (s, k1 + i))))
+    (hb : lb.Perm ((List.range b).map (fun i => (s, k + i)))) :
+    (la ++ lb).Perm ((List.range (a + b)).map (fun i => (s, k + i))) := by
+  rw [Nat.add_comm a b]
+  exact List.perm_append_comm.trans (perm_range_seq s k b a k1 lb la hk hb ha)
 
 mutual
-theorem build_keys (s : Nat) : ∀ (v : VSpec) (k : Nat),
-    keysOfList (build s v k).1 = (List.range (countEls v)).map (fun i => (s, k + i))
+/-- all views: the keys are a permutation of `(s,k), …` and the counter advances by the number of elements -/
+theorem build_keys_perm (s : Nat) : ∀ (v : VSpec) (k : Nat),
+    (keysOfList (build s v k).1).Perm ((List.range (countEls v)).map (fun i => (s, k + i)))
     ∧ (build s v k).2 = k + countEls v
   | .el tag attrs battrs children, k => by
-    have ih := buildList_keys s children (k + 1)
+    have ih := buildList_keys_perm s children (k + 1)
+    simp only [build, countEls, keysOfList, keysOf]
+    refine ⟨?_, ?_⟩
+    · rw [range_map_split s k 1 (countElsList children)]
+      simpa using ih.1
+    · rw [ih.2]; omega
+  | .text t, k => by simp [build, countEls, keysOfList, keysOf]
+  | .dynText t, k => by simp [build, countEls, keysOfList, keysOf]
+  | .dynView v, k => by
+    have ih := buildList_keys_perm s v k
+    simp only [build, countEls, keysOfList, keysOf]
+    exact ⟨by simpa using ih.1, ih.2⟩
+  | .fragment v, k => by
+    have ih := buildList_keys_perm s v k
+    simp only [build, countEls]
+    exact ih
+  | .batch2 true a b, k => by
+    have ihb := buildList_keys_perm s b k
+    have iha := buildList_keys_perm s a (buildList s b k).2
+    simp only [build, countEls, keysOfList, keysOf]
+    refine ⟨?_, ?_⟩
+    · simpa using perm_range_swap s k _ _ _ _ _ ihb.2 iha.1 ihb.1
+    · rw [iha.2, ihb.2]; omega
+  | .batch2 false a b, k => by
+    have iha := buildList_keys_perm s a k
+    have ihb := buildList_keys_perm s b (buildList s a k).2
+    simp only [build, countEls, keysOfList, keysOf]
+    refine ⟨?_, ?_⟩
+    · simpa using perm_range_seq s k _ _ _ _ _ iha.2 iha.1 ihb.1
+    · rw [ihb.2, iha.2]; omega
+theorem buildList_keys_perm (s : Nat) : ∀ (v : VList) (k : Nat),
+    (keysOfList (buildList s v k).1).Perm ((List.range (countElsList v)).map (fun i => (s, k + i)))
+    ∧ (buildList s v k).2 = k + countElsList v
+  | .nil, k => by simp [buildList, countElsList, keysOfList]
+  | .cons v rest, k => by
+    have ih1 := build_keys_perm s v k
+    have ih2 := buildList_keys_perm s rest (build s v k).2
+    simp only [buildList, countElsList]
+    refine ⟨?_, ?_⟩
+    · rw [keysOfList_appendSsr]
+      exact perm_range_seq s k _ _ _ _ _ ih1.2 ih1.1 ih2.1
+    · rw [ih2.2, ih1.2]; omega
+end
+
+/-- all views: the counter advances by the number of elements -/
+theorem build_counter (s : Nat) (v : VSpec) (k : Nat) : (build s v k).2 = k + countEls v :=
+  (build_keys_perm s v k).2
+theorem buildList_counter (s : Nat) (v : VList) (k : Nat) : (buildList s v k).2 = k + countElsList v :=
+  (buildList_keys_perm s v k).2
+
+mutual
+/-- `batch2`-free views: the keys in document order are `(s,k), (s,k+1), …` -/
+theorem build_keys (s : Nat) : ∀ (v : VSpec) (k : Nat), NoBatch2 v = true →
+    keysOfList (build s v k).1 = (List.range (countEls v)).map (fun i => (s, k + i))
+    ∧ (build s v k).2 = k + countEls v
+  | .el tag attrs battrs children, k, h => by
+    have ih := buildList_keys s children (k + 1) (by simpa [NoBatch2] using h)
     simp only [build, countEls, keysOfList, keysOf]
     refine ⟨?_, ?_⟩
     · rw [range_map_split s k 1 (countElsList children), ih.1]
       simp
     · rw [ih.2]; omega
-  | .text t, k => by simp [build, countEls, keysOfList, keysOf]
-  | .dynText t, k => by simp [build, countEls, keysOfList, keysOf]
-  | .dynView v, k => by
-    have ih := buildList_keys s v k
+  | .text t, k, _ => by simp [build, countEls, keysOfList, keysOf]
+  | .dynText t, k, _ => by simp [build, countEls, keysOfList, keysOf]
+  | .dynView v, k, h => by
+    have ih := buildList_keys s v k (by simpa [NoBatch2] using h)
     simp only [build, countEls, keysOfList, keysOf]
     exact ⟨by simpa using ih.1, ih.2⟩
-  | .fragment v, k => by
-    have ih := buildList_keys s v k
+  | .fragment v, k, h => by
+    have ih := buildList_keys s v k (by simpa [NoBatch2] using h)
     simp only [build, countEls]
     exact ih
-theorem buildList_keys (s : Nat) : ∀ (v : VList) (k : Nat),
+  | .batch2 _ _ _, _, h => by simp [NoBatch2] at h
+theorem buildList_keys (s : Nat) : ∀ (v : VList) (k : Nat), NoBatch2List v = true →
     keysOfList (buildList s v k).1 = (List.range (countElsList v)).map (fun i => (s, k + i))
     ∧ (buildList s v k).2 = k + countElsList v
-  | .nil, k => by simp [buildList, countElsList, keysOfList]
-  | .cons v rest, k => by
-    have ih1 := build_keys s v k
-    have ih2 := buildList_keys s rest (build s v k).2
+  | .nil, k, _ => by simp [buildList, countElsList, keysOfList]
+  | .cons v rest, k, h => by
+    have h' : NoBatch2 v = true ∧ NoBatch2List rest = true := by simpa [NoBatch2List] using h
+    have ih1 := build_keys s v k h'.1
+    have ih2 := buildList_keys s rest (build s v k).2 h'.2
     simp only [buildList, countElsList]
     refine ⟨?_, ?_⟩
     · rw [keysOfList_appendSsr, ih1.1, ih2.1, ih1.2, range_map_split]
     · rw [ih2.2, ih1.2]; omega
 end
 
-/-- C12 (keys): dense, in document order, counter advanced by the number of elements. -/
-theorem C12_keys : C12_keys_statement := fun s v k => buildList_keys s v k
+/-- C12 (keys), `batch2`-free views: dense, in document order, counter advanced by the number of elements. -/
+theorem C12_keys : C12_keys_statement := fun s v k h => buildList_keys s v k h
 
 /-- C12 (determinism) -/
 theorem C12_deterministic : C12_deterministic_statement := fun _ _ _ h1 h2 => h1 ▸ h2 ▸ rfl
 
-/-- the keys of a built view are pairwise distinct, from any registry state -/
+/-- the keys of a built view (any view, `batch2` included) are pairwise distinct, from any registry state -/
 theorem C12_keys_nodup_from (s : Nat) (v : VList) (k : Nat) : (keysOfList (buildList s v k).1).Nodup := by
-  rw [(C12_keys s v k).1, List.nodup_iff_pairwise_ne, List.pairwise_map]
+  rw [(buildList_keys_perm s v k).1.nodup_iff, List.nodup_iff_pairwise_ne, List.pairwise_map]
   refine List.Pairwise.imp ?_ (List.nodup_iff_pairwise_ne.1 List.nodup_range)
   intro a b h h'
   simp at h'
@@ -77,6 +162,47 @@ theorem C12_keys_nodup_from (s : Nat) (v : VList) (k : Nat) : (keysOfList (build
 /-- the keys of a view rendered by `render_to_string` (fresh registry) are pairwise distinct -/
 theorem C12_keys_nodup (s : Nat) (v : VList) : (keysOfList (buildList s v 0).1).Nodup :=
   C12_keys_nodup_from s v 0
+
+/-- the SET of keys of a built view (any view) is exactly `{(s,i) | k ≤ i < k'}`, `k'` the end counter -/
+theorem C12_keys_mem (s : Nat) (v : VList) (k : Nat) (p : Nat × Nat) :
+    p ∈ keysOfList (buildList s v k).1 ↔ p.1 = s ∧ k ≤ p.2 ∧ p.2 < (buildList s v k).2 := by
+  rw [(buildList_keys_perm s v k).1.mem_iff, buildList_counter]
+  obtain ⟨p1, p2⟩ := p
+  simp only [List.mem_map, List.mem_range, Prod.mk.injEq]
+  constructor
+  · rintro ⟨i, hi, rfl, rfl⟩
+    exact ⟨rfl, by omega, by omega⟩
+  · rintro ⟨rfl, h1, h2⟩
+    exact ⟨p2 - k, by omega, rfl, by omega⟩
+
+/-- C12 (keys), all views: counter arithmetic, density (permutation of the interval; the set of keys),
+uniqueness — everything except the document order. -/
+theorem C12_keys_all : C12_keys_all_statement := fun s v k =>
+  ⟨buildList_counter s v k, (buildList_keys_perm s v k).1, C12_keys_nodup_from s v k, C12_keys_mem s v k⟩
+
+/-! #### `batch2`: creation order is not document order -/
+
+/-- the keys of a rendered tree as plain numbers (scope 0) in document order -/
+def docKeys (v : VList) : List Nat := (keysOfList (buildList 0 v 0).1).map (·.2)
+
+private def pEl : VSpec := .el (lit "p") [] [] .nil
+
+/-- `ab` (A's flag written first): B's element takes key 0, A's element key 1 — in document order the
+keys read `1, 0`, so `C12_keys_statement` without `NoBatch2List` would be false -/
+example : docKeys (.cons (.batch2 true (.cons pEl .nil) (.cons pEl .nil)) .nil) = [1, 0] := by decide
+
+example : keysOfList (buildList 0 (.cons (.batch2 true (.cons pEl .nil) (.cons pEl .nil)) .nil) 0).1
+    ≠ (List.range 2).map (fun i => (0, 0 + i)) := by decide
+
+/-- both orders: `ab` gives `1, 0`, `ba` gives `0, 1` (document order is A then B in both) -/
+example :
+    docKeys (.cons (.batch2 true (.cons pEl .nil) (.cons pEl .nil)) .nil) = [1, 0]
+    ∧ docKeys (.cons (.batch2 false (.cons pEl .nil) (.cons pEl .nil)) .nil) = [0, 1] := by decide
+
+/-- the driver's sanity line: `(batch2 ab (X <p>) (Y <p>))` -/
+example : renderToString (.cons (.batch2 true (.cons pEl .nil) (.cons pEl .nil)) .nil)
+    = .ok (lit "<!--/--><p data-hk=\"0.1\"></p><!--/--><!--/--><p data-hk=\"0.0\"></p><!--/-->") := by
+  rfl
 
 /-! ### totality of `render_to_string` -/
 
@@ -96,6 +222,7 @@ def voidOk : VSpec → Bool
   | .el tag _ _ children => (!isVoid tag || !producesNodeList children) && voidOkList children
   | .dynView v => voidOkList v
   | .fragment v => voidOkList v
+  | .batch2 _ a b => voidOkList a && voidOkList b
   | _ => true
 def voidOkList : VList → Bool
   | .nil => true
@@ -183,6 +310,22 @@ theorem build_renders (s : Nat) : ∀ (v : VSpec) (k : Nat),
     have ih := buildList_renders s v k
     simp only [build, voidOk, producesNode]
     exact ih
+  | .batch2 true a b, k => by
+    have ihb := buildList_renders s b k
+    have iha := buildList_renders s a (buildList s b k).2
+    simp only [build, voidOk, producesNode, SsrList.isEmpty]
+    refine ⟨?_, by simp⟩
+    rw [renders_cons, renders_cons, renders_cons, renders_cons, renders_cons, renders_cons,
+      render_dynamic, render_dynamic, iha.1, ihb.1]
+    simp [renders_nil, render_marker_ok]
+  | .batch2 false a b, k => by
+    have iha := buildList_renders s a k
+    have ihb := buildList_renders s b (buildList s a k).2
+    simp only [build, voidOk, producesNode, SsrList.isEmpty]
+    refine ⟨?_, by simp⟩
+    rw [renders_cons, renders_cons, renders_cons, renders_cons, renders_cons, renders_cons,
+      render_dynamic, render_dynamic, iha.1, ihb.1]
+    simp [renders_nil, render_marker_ok]
 theorem buildList_renders (s : Nat) : ∀ (v : VList) (k : Nat),
     (Renders (buildList s v k).1 ↔ voidOkList v = true)
     ∧ ((buildList s v k).1.isEmpty = !producesNodeList v)
